@@ -42,8 +42,8 @@ import (
 func init() { hk.Register("c45", Run) }
 
 type Step struct {
-	Op     string `json:"op"`     // commit | pull
-	Branch int    `json:"branch"` // commit: 0 = main, k = branch bk (created from main's current head on first use)
+	Op     string `json:"op"`     // commit | pull | break | fix | tag | delbranch
+	Branch int    `json:"branch"` // commit: 0 = main, k = branch bk (k odd) / vk (k even) (created from main's current head on first use); tag: the tag is NAMED bk (at main's head); delbranch: branch bk is deleted on the primary
 }
 
 type Case struct {
@@ -65,8 +65,8 @@ type Obs struct {
 	Cluster []ClusterO `json:"cluster,omitempty"`
 }
 
-// ClusterO: what is seen after one step of a cluster case. Roots are named by the index of the commit step that
-// produced them (0 = the root the primary had when the hook started); -1 = the standby store is still empty.
+// ClusterO: what is seen after one step of a cluster case. Roots are named by the index i of the commit step that
+// produced them: 2(i+1), and 2(i+1)+1 for the second write of a commit2 step (0 = the root the primary had when the hook started); -1 = the standby store is still empty.
 type ClusterO struct {
 	Primary  int    `json:"primary"`
 	Standby  int    `json:"standby"`
@@ -76,11 +76,15 @@ type ClusterO struct {
 	AckErr   string `json:"ackerr,omitempty"`
 	Refused  bool   `json:"refused,omitempty"` // transition refused: not caught up within the wait
 	StepErr  string `json:"err,omitempty"`
+	Raced    bool   `json:"raced,omitempty"` // commit2: the second write was made while the push of the first was held in flight
 }
 
 func branchName(b int) string {
 	if b == 0 {
 		return "main"
+	}
+	if b%2 == 0 {
+		return fmt.Sprintf("v%d", b) // even ids sort after "main", odd ids before it
 	}
 	return fmt.Sprintf("b%d", b)
 }
@@ -94,6 +98,9 @@ func branchID(name string) int {
 	}
 	var k int
 	if _, err := fmt.Sscanf(name, "b%d", &k); err == nil {
+		return k
+	}
+	if _, err := fmt.Sscanf(name, "v%d", &k); err == nil {
 		return k
 	}
 	return -1
@@ -162,7 +169,7 @@ func sqlHeads(s *util.Session, ids map[string]int) (Heads, string) {
 // ---------------------------------------------------------------- the cluster commit hook, in-process
 // The real cluster.commithook (constructed through the verif export, background threads running) replicates the
 // primary repository's noms root to a second, initially empty, file-backed DoltDB that plays the standby's store.
-// Ops: start | commit (SQL commit on the primary, then the post-commit callback Execute; when the standby is
+// Ops: start | commit2 (see below) | commit (SQL commit on the primary, then the post-commit callback Execute; when the standby is
 // reachable the replication wait returned by Execute is awaited: that is the acknowledgement path) | down | up
 // (destDBF fails / works: only meaningful before the first successful connection) | await (block until caught up)
 // | transition (what Controller.gracefulTransitionToStandby does with the hook: wait for isCaughtUp, then
@@ -217,7 +224,22 @@ func runCluster(c Case) (any, error) {
 	}
 	lgr := logrus.New()
 	lgr.SetLevel(logrus.PanicLevel)
-	ctxF := func(ctx context.Context) (*sql.Context, error) { return prim.Eng.NewLocalContext(ctx) }
+	// the hook asks for a sql.Context at the beginning of every replication attempt, after it has captured the root to
+	// push and released its lock: an armed stall holds the attempt there ("push in flight") until the harness releases it
+	var armed atomic.Bool
+	stalled := make(chan struct{}, 1)
+	releaseCh := make(chan struct{}, 1)
+	ctxF := func(ctx context.Context) (*sql.Context, error) {
+		if armed.CompareAndSwap(true, false) {
+			stalled <- struct{}{}
+			select {
+			case <-releaseCh:
+			case <-ctx.Done():
+			case <-time.After(10 * time.Second):
+			}
+		}
+		return prim.Eng.NewLocalContext(ctx)
+	}
 	hook := cluster.VerifNewCommitHook(lgr, prim.DBName, true, destDBF, src, tempDir, ctxF)
 	defer hook.Stop()
 
@@ -261,12 +283,12 @@ func runCluster(c Case) (any, error) {
 			if !started {
 				return nil, fmt.Errorf("commit before start")
 			}
-			if err := ps.MustExec(fmt.Sprintf("insert into t values (%d, %d)", i+1, i), "call dolt_commit('-Am', 'step')"); err != nil {
+			if err := ps.MustExec(fmt.Sprintf("insert into t values (%d, %d)", 2*(i+1), i), "call dolt_commit('-Am', 'step')"); err != nil {
 				co.StepErr = err.Error()
 			}
 			if rt, err := src.NomsRoot(ctx); err == nil {
 				if _, ok := ids[rt.String()]; !ok {
-					ids[rt.String()] = i + 1
+					ids[rt.String()] = 2 * (i + 1)
 				}
 			}
 			wait, err := hook.Execute(ctx, src)
@@ -276,6 +298,58 @@ func runCluster(c Case) (any, error) {
 			if !swapped && !down.Load() {
 				// acknowledged write: block on the replication wait, as the engine does with
 				// @@dolt_cluster_ack_writes_timeout_secs > 0
+				if wait != nil {
+					wctx, cancel := context.WithTimeout(ctx, 8*time.Second)
+					if werr := wait(wctx); werr != nil {
+						co.AckErr = werr.Error()
+					}
+					cancel()
+				}
+				waitCaughtUp(8 * time.Second)
+			} else {
+				time.Sleep(150 * time.Millisecond)
+			}
+		case "commit2":
+			// two writes, the second one landing while the push of the first is in flight (the replication attempt for
+			// root A is held after it captured A), and nothing after it: roots 2(i+1) and 2(i+1)+1
+			if !started {
+				return nil, fmt.Errorf("commit before start")
+			}
+			race := !swapped && !down.Load()
+			if race {
+				waitCaughtUp(8 * time.Second)
+				armed.Store(true)
+			}
+			didStall := false
+			var wait func(context.Context) error
+			for k := 0; k < 2; k++ {
+				if err := ps.MustExec(fmt.Sprintf("insert into t values (%d, %d)", 2*(i+1)+k, i), "call dolt_commit('-Am', 'step')"); err != nil {
+					co.StepErr = err.Error()
+				}
+				if rt, err := src.NomsRoot(ctx); err == nil {
+					if _, ok := ids[rt.String()]; !ok {
+						ids[rt.String()] = 2*(i+1) + k
+					}
+				}
+				w, err := hook.Execute(ctx, src)
+				if err != nil {
+					co.StepErr = err.Error()
+				}
+				wait = w
+				if k == 0 && race {
+					select {
+					case <-stalled:
+						didStall = true
+					case <-time.After(5 * time.Second):
+						armed.Store(false)
+					}
+				}
+			}
+			co.Raced = didStall
+			if didStall {
+				releaseCh <- struct{}{}
+			}
+			if race {
 				if wait != nil {
 					wctx, cancel := context.WithTimeout(ctx, 8*time.Second)
 					if werr := wait(wctx); werr != nil {
@@ -407,6 +481,7 @@ func Run(raw json.RawMessage) (any, error) {
 
 	var o Obs
 	created := map[int]bool{0: true}
+	tagged := map[int]bool{}
 	n := 0
 	for i, st := range c.Steps {
 		var so StepObs
@@ -418,19 +493,43 @@ func Run(raw json.RawMessage) (any, error) {
 			if !created[st.Branch] {
 				qs = append(qs, "call dolt_checkout('main')", "call dolt_checkout('-b', '"+b+"')")
 				created[st.Branch] = true
+			} else if tagged[st.Branch] {
+				// dolt_checkout('<name>') resolves a name that is both a branch and a tag to the tag ("detached head"
+				// error): work on the branch through its revision database instead
+				qs = append(qs, "call dolt_checkout('main')", "use `"+prim.DBName+"/"+b+"`")
 			} else {
 				qs = append(qs, "call dolt_checkout('"+b+"')")
 			}
 			qs = append(qs, fmt.Sprintf("insert into t values (%d, %d)", 1000*st.Branch+i+1, i), "call dolt_commit('-Am', 'step')")
+			if created[st.Branch] && tagged[st.Branch] {
+				qs = append(qs, "use `"+prim.DBName+"`")
+			}
 			ps.Ctx.ClearWarnings()
 			if err := ps.MustExec(qs...); err != nil {
 				so.Err = err.Error()
 			}
 			so.Warn = len(ps.Ctx.Warnings()) > 0
-			hr := ps.Exec("select dolt_hashof('" + b + "')")
+			hr := ps.Exec("select hash from dolt_branches where name = '" + b + "'") // (a tag of the same name may exist)
 			if hr.Err == "" && len(hr.Rows) == 1 {
 				if _, ok := ids[unS(hr.Rows[0][0])]; !ok {
 					ids[unS(hr.Rows[0][0])] = i + 1
+				}
+			}
+		case "tag":
+			// a tag named like a branch (b1, v2) or sorting between branch names (b15); push-on-write sends
+			// refs/tags/<name> to the remote, the replica fetches it with @@dolt_replicate_all_heads
+			if !tagged[st.Branch] && st.Branch != 0 {
+				tagged[st.Branch] = true
+				if err := ps.MustExec("call dolt_checkout('main')", "call dolt_tag('"+branchName(st.Branch)+"', 'main')"); err != nil {
+					so.Err = err.Error()
+				}
+			}
+		case "delbranch":
+			// delete the branch on the primary: the push-on-write hook deletes refs/heads/<name> on the remote
+			if created[st.Branch] && st.Branch != 0 {
+				created[st.Branch] = false
+				if err := ps.MustExec("call dolt_checkout('main')", "call dolt_branch('-D', '"+branchName(st.Branch)+"')"); err != nil {
+					so.Err = err.Error()
 				}
 			}
 		case "break":
@@ -466,7 +565,7 @@ func Run(raw json.RawMessage) (any, error) {
 			return nil, err
 		}
 		so.Remote = rh
-		if st.Op == "pull" || i == len(c.Steps)-1 || true {
+		{
 			// reading the replica's heads WITHOUT triggering a pull is not possible through SQL; the replica is
 			// observed only on pull steps, other steps repeat its last observed heads (the model does the same:
 			// its replica changes on pulls only)
